@@ -15,7 +15,8 @@
     time is one an int64 nanosecond count can express (between Go's zero time and year 3000). *)
 From Coq Require Import List NArith ZArith Bool Sorted.
 From ApiFu Require Import Base.Sexp TimeConn.TimeModel TimeConn.TimeSpec TimeConn.TimeProofs
-  TimeConn.TimeErrModel TimeConn.TimeErrProofs TimeConn.TimeCursorCodec TimeConn.TimeCursorCodecProofs.
+  TimeConn.TimeErrModel TimeConn.TimeErrProofs TimeConn.TimeCursorCodec TimeConn.TimeCursorCodecProofs
+  TimeConn.GoTimeModel TimeConn.GoTimeProofs.
 Import ListNotations.
 Open Scope Z_scope.
 
@@ -263,7 +264,7 @@ Proof. exact tb_roundtrip. Qed.
     feeding endCursor back as [after] always reaches the cursor itself. *)
 Theorem C16_cursor_string_as_argument : forall c,
   tb_encode c <> [] /\ (wire_ok c -> arg_of_wire (Some (tb_encode c)) = Some (CCursor c)).
-Proof. intro c. split; [apply tb_encode_nonempty | apply arg_of_wire_encode]. Qed.
+Proof. exact cursor_string_as_argument. Qed.
 
 (** The walks of the statement with the cursor STRINGS the server emitted: first:n, then
     after:<the endCursor string> while hasNextPage (and backwards likewise) visits every edge of
@@ -281,6 +282,49 @@ Theorem C16_time_walk_bwd_by_cursor_string : forall E g ps n from to fuel,
   walk_bwd_wire g fuel ps n from to None
   = WDone (sort (filter (fun e => from_ok from e && to_ok to e) E)).
 Proof. exact time_walk_bwd_wire_stmt. Qed.
+
+(** ** Stage B: [time.Time] is not an integer
+
+    [gtime] (TimeConn/GoTimeModel.v) is Go's time.Time as far as the connection code uses it:
+    int64 seconds since year 1, nanoseconds within the second, an optional monotonic reading, a
+    location; [inst t] is the instant it denotes (nanoseconds since the Unix epoch, unbounded).
+    [range_queries_t] transcribes TimeBasedRangeQueries with [Before] / [After] / [Equal] /
+    [Add] on such values; [new_cursor] / [cursor_time] are NewTimeBasedCursor / Time(). *)
+
+(** Comparisons compare instants: locations never matter, and a monotonic reading only when both
+    values carry one (no value that reaches the connection code does: DateTime arguments come from
+    UnmarshalText, cursor times from time.Unix). *)
+Theorem C16_time_comparisons_are_instants : forall t u, g_ok t -> g_ok u ->
+  g_before t u = (inst t <? inst u) /\ g_after t u = (inst u <? inst t) /\ g_equal t u = (inst t =? inst u).
+Proof. exact comparisons_are_instants. Qed.
+
+(** The integer transcription [range_queries] used by all theorems above is exactly what the
+    time.Time-level code computes — for EVERY atOrAfterTime / beforeTime a DateTime can express
+    (any year, any zone offset; also before Go's zero time and after the year 3000) and every
+    cursor. *)
+Theorem C16_range_queries_at_time_level_exact : forall after before from to limit,
+  opt_wf from -> opt_wf to -> opt_int64 after -> opt_int64 before ->
+  map inst_query (range_queries_t after before from to limit)
+  = range_queries current after before (option_map inst from) (option_map inst to) limit.
+Proof. exact range_queries_t_exact. Qed.
+
+(** The hypothesis "an edge is identified with its cursor" (edge time = cursor time) holds for
+    cursors built with NewTimeBasedCursor exactly when the edge's time is an int64 nanosecond count
+    (1677-09-21 .. 2262-04-11), whatever its location or monotonic reading ... *)
+Theorem C16_cursor_denotes_edge_time_iff_int64 : forall t id,
+  inst (cursor_time (new_cursor t id)) = inst t <-> int64 (inst t).
+Proof. exact cursor_time_roundtrip_iff. Qed.
+
+(** ... and fails outside: UnixNano wraps silently, an edge of the year 2300 gets a cursor of
+    1715 and sorts before an edge of 2020, an edge of 1600 after it (known limitation of the int64
+    cursor; the DateTime scalar itself accepts the years 0-9999). *)
+Theorem C16_cursor_order_refuted_outside_int64 :
+  g_wf t_1600 /\ g_wf t_2020 /\ g_wf t_2300 /\
+  inst t_1600 < inst t_2020 < inst t_2300 /\
+  cursor_ltb (new_cursor t_2300 []) (new_cursor t_2020 []) = true /\
+  cursor_ltb (new_cursor t_2020 []) (new_cursor t_1600 []) = true /\
+  inst (cursor_time (new_cursor t_2300 [])) <> inst t_2300.
+Proof. exact cursor_order_refuted_outside_int64. Qed.
 
 Print Assumptions C16_cursor_order_strict_total.
 Print Assumptions C16_reference_characterised.
@@ -310,3 +354,7 @@ Print Assumptions C16_cursor_codec_roundtrip.
 Print Assumptions C16_cursor_string_as_argument.
 Print Assumptions C16_time_walk_fwd_by_cursor_string.
 Print Assumptions C16_time_walk_bwd_by_cursor_string.
+Print Assumptions C16_time_comparisons_are_instants.
+Print Assumptions C16_range_queries_at_time_level_exact.
+Print Assumptions C16_cursor_denotes_edge_time_iff_int64.
+Print Assumptions C16_cursor_order_refuted_outside_int64.
